@@ -87,7 +87,7 @@ pub fn run(ctx: &mut Ctx) {
     ctx.meta("rule", "cases: (tree, per-tag write options, presentation); trees = forests over V (macro-derived) up to the node bound + deep spines + size-boundary documents (payload / content 124..128, 16379..16384 bytes; thorough adds 2^21-1, 2^21) + raw tags with well-formed unknown ids of 1, 2 and 8 bytes, and forests over a runtime specification whose masters nest 8 deep with ids of every byte length 1..8; options = every known/unknown choice x deviations among size width 1..8 and payload classes (0, boundary integers, NaN patterns, empty/127/128-byte strings and binaries); presentations = Start/End and every Full antichain. The real TagWriter is driven; if every call is accepted the output is read by the real strict TagIterator. Oracle: items == flatten(tree) exactly, no error, then None. Excluded (inherent EBML ambiguity, as in C07): a global element directly after an unknown-size master. Non-trivial: documents with a master and a non-default option or Full presentation.");
     ctx.meta("bounds", &format!("forests <= {} elements over V, <= {} deviations; chain specification forests <= {} elements + the full 8-deep spine x 256 unknown-size subsets", p.max_nodes, p.devs, ctx.tier.pick(6, 7)));
     ctx.meta("assumptions", "payload lengths 2^(7k)-1 for k >= 4 are covered only at codec level (C15) || calls the writer rejects are not judged here (C09/C11 demand acceptance)");
-    for c in ["accepted_by_writer", "chain_spec_docs", "size_boundary_docs"] {
+    for c in ["accepted_by_writer", "chain_spec_docs", "size_boundary_docs", "buffer_boundary_docs"] {
         ctx.expect_nonzero(c);
     }
     docs::for_each_doc(ctx, &rs, &p, &mut |ctx, doc| {
@@ -116,6 +116,32 @@ pub fn run(ctx: &mut Ctx) {
                 ch[0].size = SizeEnc::Width(w);
             }
             check_doc::<V>(ctx, &rs, &d1, false);
+        }
+    }
+    // documents longer than the reader's 64 KiB buffer: elements with 9..16-byte headers at every alignment
+    // around the buffer boundary
+    {
+        use crate::refmodel::Val;
+        let pads: Vec<usize> = if ctx.quick() { (0..28).collect() } else { (0..64).collect() };
+        for (i, pad) in pads.iter().enumerate() {
+            if !ctx.mine(i as u64) {
+                continue;
+            }
+            let filler = Node::leaf(ID_B, Val::B(vec![0x6b; 65536 - 48 + pad]));
+            let mut mu = Node::leaf(ID_MU, Val::U(5));
+            mu.size = SizeEnc::Width(8);
+            let mut m = Node::master(ID_M, vec![mu, Node::master(ID_N, vec![Node::master(ID_K, vec![{ let mut l = Node::master(ID_L, vec![Node::leaf(ID_LB, Val::B(vec![1, 2]))]); l.size = SizeEnc::Width(8); l }])])]);
+            m.size = SizeEnc::Width(8);
+            let mut u = Node::leaf(ID_U, Val::U(77));
+            u.size = SizeEnc::Width(7);
+            for unknown_root in [false, true] {
+                let mut root = Node::master(ID_ROOT, vec![filler.clone(), m.clone(), u.clone(), Node::leaf(ID_S, Val::S("tail".into()))]);
+                if unknown_root {
+                    root.size = SizeEnc::Unknown(8);
+                }
+                ctx.count("buffer_boundary_docs", 1);
+                check_doc::<V>(ctx, &rs, &vec![root], false);
+            }
         }
     }
     // the chain specification (ids of every length, 8 levels)
